@@ -34,6 +34,7 @@ import contextlib
 import io
 import math
 import os
+import random
 import tempfile
 import warnings
 from fractions import Fraction as Fr
@@ -406,6 +407,17 @@ def work(job):
     with os.fdopen(fd, "w") as f:
         f.write(text)
     res = {}
+    if job.get("before_text"):
+        # another structure with the SAME residue identifiers but a different backbone geometry was read earlier in this
+        # process: what is reported for the present document must not depend on it
+        fd0, path0 = tempfile.mkstemp(suffix="." + fmt, dir=tmpdir())
+        with os.fdopen(fd0, "w") as f:
+            f.write(job["before_text"])
+        try:
+            guarded(real_v2, job["before_text"], fmt)
+            guarded(real_v1, path0)
+        finally:
+            os.unlink(path0)
     try:
         res["v2"] = guarded(real_v2, text, fmt)
         if job.get("qualify"):
@@ -833,8 +845,15 @@ def build_cases(ctx, res):
             continue
         pdb = g4.emit_pdb(rows, model_records=(rows[0]["model"] != 1 or rng.random() < 0.5), ter=rng.random() < 0.7)
         cif = emit_cif(rows, rng)
-        cases.append({"family": "generated", "rows": rows, "meta": meta, "texts": {"pdb": pdb, "cif": cif},
-                      "input": {"family": "generated", "rows": [g4.wire(r) for r in rows], "pdb": pdb, "cif": cif}})
+        case = {"family": "generated", "rows": rows, "meta": meta, "texts": {"pdb": pdb, "cif": cif},
+                "input": {"family": "generated", "rows": [g4.wire(r) for r in rows], "pdb": pdb, "cif": cif}}
+        if rng.random() < 0.25:
+            # a look-alike read first: same identifiers, every P moved by 3 A (connected junctions break and vice versa)
+            twin = [dict(r, x=r["x"] + 3000) if r["name"] == "P" and r["x"] + 3000 <= 9999999 else r for r in rows]
+            case["before"] = {"pdb": g4.emit_pdb(twin), "cif": emit_cif(twin, random.Random(i))}
+            case["input"]["read_before"] = case["before"]
+            res.count("tag look-alike-read-before")
+        cases.append(case)
         for t in meta["tags"]:
             res.count("tag " + t)
     return cases
@@ -889,7 +908,7 @@ def run_cases(ctx, res, cases, small=False):
     jobs, index = [], []
     for k, c in enumerate(cases):
         for fmt in c["texts"]:
-            jobs.append({"fmt": fmt, "text": c["texts"][fmt]})
+            jobs.append({"fmt": fmt, "text": c["texts"][fmt], "before_text": (c.get("before") or {}).get(fmt)})
             index.append((k, fmt))
     outs = (pmap_small if small else parallel_map)(work, jobs)
     reqs, rix = [], []
@@ -985,6 +1004,8 @@ def replay(ctx, data):
         rows = [g4.unwire(w) for w in inp["rows"]]
         case = {"family": "generated", "rows": rows, "meta": {"nres": 2, "tags": []}, "texts": {"pdb": inp["pdb"], "cif": inp["cif"]},
                 "input": inp}
+        if inp.get("read_before"):
+            case["before"] = inp["read_before"]
         run_cases(ctx, res, [case], small=True)
     else:
         name = inp.get("file")
